@@ -488,7 +488,7 @@ func runC08(k int, rng *Rng) CaseResult {
 	clockNewCase(clockScaled)
 	installHooks(yieldHooks(rng.U64()))
 	w := NewWorld("C08", rng, cfg, caseDir(k, "c08"))
-	w.storeWant = true
+	w.storeWant = false
 	defer w.Cleanup()
 	if !w.OpenCreate() {
 		return w.finish(nil, false, nil)
